@@ -120,8 +120,8 @@ Proof.
   apply andb_true_iff in Hsd. destruct Hsd as [Hcd Hsd].
   apply andb_true_iff in Hsd. destruct Hsd as [Hpd Hso].
   destruct s as [|ss| |]; try discriminate.
-  simpl in Hwf. apply andb_true_iff in Hwf. destruct Hwf as [Hcc Hces].
-  simpl in Hcl. rewrite Em in Hcl. simpl in Hcl.
+  unfold wf_section in Hwf. apply andb_true_iff in Hwf. destruct Hwf as [Hcc Hces].
+  unfold clean_section in Hcl. rewrite Em in Hcl. cbn [negb orb] in Hcl.
   apply andb_true_iff in Hcl. destruct Hcl as [Hcl0 Hcles].
   unfold node_layer. destruct (first_match ls es) as [e|] eqn:Ef.
   - apply first_match_In in Ef. rewrite forallb_forall in Hces, Hcles.
@@ -247,7 +247,8 @@ Theorem ideal_layered_fields s d c n :
   conforms s d = true -> conforms s c = true -> conforms s n = true ->
   layered_fields (layered ideal d c n) n c d.
 Proof.
-  intros Hd Hc Hn. unfold layered, ideal, prep, prep_entry. simpl. split; intros p.
+  intros Hd Hc Hn. unfold layered_fields, layered, ideal, prep, prep_entry.
+  cbn [m_reqnorm m_arrmerge]. split; intros p.
   - rewrite first_some3.
     rewrite (lookup_overlay false _ s) by (auto using conforms_overlay).
     rewrite (lookup_overlay false _ s) by assumption. reflexivity.
@@ -272,7 +273,8 @@ Theorem faithful_scalar_layering ss d c n p :
   req_gap p c = false -> (mentions n = true -> req_gap p n = false) ->
   lookup p (layered faithful d c n) = first_some [lookup p n; lookup p c; lookup p d].
 Proof.
-  intros Hd Hc Hn Hgc Hgn. unfold layered, faithful, prep, prep_entry. simpl.
+  intros Hd Hc Hn Hgc Hgn. unfold layered, faithful, prep, prep_entry.
+  cbn [m_reqnorm m_arrmerge].
   rewrite first_some3.
   assert (conforms (SObj ss) (if mentions n then norm n else Obj None) = true) as Hn'
     by (destruct (mentions n); [apply conforms_norm; assumption|reflexivity]).
